@@ -27,6 +27,9 @@ CASES = [
  ("C02", "pipeline/runner.py", "                and not is_compatible_data(None, itype)\n                and not required\n", "                and not is_compatible_data(None, itype)\n", "break"),
  ("C02", "pipeline/runner.py", "        elif status == \"in-progress\":\n            raise PipelineError(f\"pipeline cycle encountered at {node}\")\n", "", "break"),
  ("C02", "pipeline/runner.py", "        if self.data_type is not None and not is_compatible_data(val, self.data_type):", "        if not self.data_type is None and not is_compatible_data(val, self.data_type):", "keep"),
+ ("C03", "pipeline/common.py", "    if predicts_ratings == \"raw\":\n        builder.predicts_ratings()\n    elif predicts_ratings:\n        builder.predicts_ratings(fallback=BiasScorer())", "    if predicts_ratings:\n        builder.predicts_ratings(fallback=BiasScorer())\n    elif predicts_ratings == \"raw\":\n        builder.predicts_ratings()", "break"),
+ ("C18", "implicit.py", "        delegate = self._construct()\n", "        delegate = getattr(self, \"delegate\", None) or self._construct()\n", "break"),
+ ("C11", "training.py", "        return random_generator(self.rng)\n", "        return getattr(self, \"_gen\", None) or random_generator(self.rng)\n", "break"),
  ("C03", "stats.py", "    if n >= 0 and n < N:", "    if n > 0 and n < N:", "keep"),
  ("C03", "stats.py", "    if n >= 0 and n < N:", "    if n >= 0 and n <= N:", "break"),
  ("C03", "stats.py", "    if n >= 0 and n < N:", "    if 0 <= n < N:", "keep"),
